@@ -8,10 +8,25 @@
 From CB Require Import Spec Unstable.
 From Coq Require Import Permutation.
 From CBP Require Import Step RefDefs C02Lemmas Arith AbsLemmas AllOps FaultDefs FaultPrims FaultDropA FaultDropB FaultUser
-     Iters DrainP ExtendIo CmpHash Ctors PhysMoves UnstableEq Access Views RefTruncate FillExtend.
+     Iters DrainP ExtendIo CmpHash Ctors PhysMoves UnstableEq Access Views RefTruncate FillExtend FaultFrame SpecCorollaries.
 
 
 Theorem C09_drain_drop :
   forall sb eb script, refines_op (ODrain sb eb script false).
 Proof. exact (drain_drop_op). Qed.
 Print Assumptions C09_drain_drop.
+
+Theorem C09_drain_protocol :
+  forall s w sb eb sc v s' w',
+  WF s -> fault w = None -> bound_ok sb -> bound_ok eb ->
+  exec (ODrain sb eb sc false) s w = (Ok v, s', w') ->
+  exists a b rs,
+    spec_bounds (size s) sb eb = Some (a, b) /\ v = OutScript rs /\
+    let win := sublist (nat_of a) (nat_of b) (abs s) in
+    let sc' := map plain_step sc in
+    let rs' := map erase_sres rs in
+    de_protocol win sc' rs' /\
+    abs s' = firstn (nat_of a) (abs s) ++ skipn (nat_of b) (abs s) /\
+    log w' = log w ++ drops (unyielded win sc' rs').
+Proof. exact (exec_drain_protocol). Qed.
+Print Assumptions C09_drain_protocol.
